@@ -118,6 +118,34 @@ PROPS = {
         "real_vs_stub": REAL_TXN,
         "assumptions": ["keys are few and short: the property's adversarial key sets belong to C08"],
     },
+    "C09": {
+        "engine": "locatesim",
+        "level_text": "a real RegionCache (with its background goroutines) over the real CodecPDClient over a simulated PD (answers parked, delayed, reordered between concurrent lookups, or computed from a topology snapshot k events old for follower-allowed requests) over mocktikv.Cluster (1-3 stores, 1-6 regions); events from the seed: split (either half keeps the id), merge (into either neighbour), leader transfer, add / remove peer, store stop / start, cache TTL expiry, InvalidateCachedRegion, OnRegionEpochNotMatch, OnSendFail; 1-3 actors call every lookup API (LocateKey, LocateEndKey, TryLocateKey, LocateRegionByID, LocateKeyRange, BatchLocateKeyRanges, GroupKeysByRegion, BatchLoadRegions*, ListRegionIDsInKeyRange, LoadRegionsInKeyRange) from cold / warm / partially invalidated / expired caches and send Get / RawGet through a real RegionRequestSender to the mock store; oracles: containment of the key asked for, gap-free in-order coverage of every requested range incl. an unbounded last region, key grouping is a partition into containing regions, white-box non-regression of the sorted index at check points around every delivered PD answer / store response / event (an installed entry is not older than the valid entry of the same region id, nor than a valid entry that starts inside its range), convergence after the last event (every Get reaches the current leader within 30 simulated s / 200 requests), no panic",
+        "level_note": "trusted: the simulated PD (consistent snapshots, stale only for follower-allowed requests), the mock cluster as topology ground truth, the readings stated in sim/engines/locatesim/CHECK.md (wider stale entries that start before a new entry are not judged, as the property's mechanism text says); <= 6 regions, so the continuation paths for more than 128 regions per PD batch are not reached",
+        "level": "exploration",
+        "modes": [
+            {"mode": "mix", "quick": {"runs": 6000}, "thorough": {"runs": 160000}},
+            {"mode": "batch", "quick": {"runs": 3008}, "thorough": {"runs": 80000}},
+            {"mode": "send", "quick": {"runs": 3008}, "thorough": {"runs": 80000}},
+        ],
+        "rule": "seeded actor programs over all lookup APIs, topology events and PD answer schedules; non-trivial = at least three calls returned a result and the run had more than one region or at least one applied event; distinct = canonical traces",
+        "real_vs_stub": "real code: internal/locate (RegionCache with background goroutines, SortedRegions, CodecPDClient, store cache, RegionRequestSender, replica selector), config/retry, internal/apicodec (v1), tikvrpc, internal/mockstore/mocktikv (Cluster, RPCClient, Session checks, MVCC store); stub: PD region queries (simPD over snapshots of the mock cluster), gRPC client (simClient), store liveness probe, clock",
+        "assumptions": ["every region always has a leader known to PD; one store down at a time", "a PD answer is a consistent snapshot (current or k events old), never a list with holes", "no buckets, down / pending peers, TiFlash, witnesses, forwarding; API v1 transactional key mode", "LocateEndKey is never called with an empty key (known finding F1)"],
+    },
+    "C16": {
+        "engine": "pipesim",
+        "level_text": "mode buffer: the real PipelinedMemDB with a simulator-owned flush function (parks in the simulator, which decides from the seed when each flush ends relative to the next reads and writes and whether it fails, fully or after n mutations) and buffer getter; seeded programs of Set / Delete / flags / Get / GetLocal / BatchGet / Flush(force or threshold-driven) / FlushWait / Staging / Release / Cleanup under three threshold families; oracle: a three-level map model {mutable, flushing, flushed}: every read returns the latest write at any level, deletions hide, every buffered mutation is handed to exactly one flush, generations +1, at most one flush in flight, a flush error is reported and nothing is lost silently, the cache never serves a value staler than a flush; modes txn / txn-faults: a real pipelined KVTxn (flush / resolve concurrency varied, thresholds lowered through the existing failpoints) over the simulated network against the reference TiKV model (Flush with generations, BufferBatchGet, range ResolveLock), region borders on the smallest / largest flushed key, single flushed key, rollback after one flush, flush RPC failures; oracle: reads inside the transaction, after Commit / Rollback and the end of the background work no lock of the transaction is left anywhere (mode txn: only retried faults), one outcome decided on the primary on every flushed key, later and concurrent readers see exactly it (txn-faults: lossy faults, judged after recovery)",
+        "level_note": "trusted: the three-level model, the reference TiKV model sim/refkv (its Flush ignores assertions and CheckNotExists existence, so the generator avoids insert-then-delete within one generation), the application obeys the documented rules (no use after a reported flush error except rollback); one writing pipelined transaction per run",
+        "level": "exploration",
+        "modes": [
+            {"mode": "buffer", "quick": {"runs": 32000}, "thorough": {"runs": 800000}},
+            {"mode": "txn", "quick": {"runs": 6400}, "thorough": {"runs": 160000}},
+            {"mode": "txn-faults", "quick": {"runs": 4800}, "thorough": {"runs": 80000}},
+        ],
+        "rule": "buffer: seeded programs with explicit flush ends; non-trivial = a read or write executed while a flush was parked, or a flush failure was reported; txn*: non-trivial = the transaction began, a Flush RPC of it executed and the end call was reached; distinct = canonical step / RPC traces",
+        "real_vs_stub": "real code: internal/unionstore (PipelinedMemDB, ART), txnkv/transaction (pipelined flush, committer, ttl manager), txnkv/txnsnapshot (buffer tier), txnkv/rangetask, txnkv/txnlock, internal/locate, config/retry; stub: PD/TSO, network (SimTransport), TiKV = reference model sim/refkv; mode buffer: the flush function and the buffer getter are the simulator",
+        "assumptions": ["single goroutine per transaction; flag operations outside staging levels", "conflicts between two pipelined writers are not explored"],
+    },
     "C10": {
         "engine": "sendsim",
         "level_text": "one RegionRequestSender.SendReqCtx / SendReqAsync call at a time on the simulated clock against a 3-replica region (variants: learner, unreachable / slow stores, labels, forwarding); a client stub answers attempt i from a fault script over the property's alphabet (17 concrete symbols + ok; tails either ok or 'repeat the last n symbols forever'); ALL scripts of length <= 3 x 2 tails x 18 configurations are enumerated (187920 scenarios), longer scripts are sampled with replica-read mode, command kind, budgets, deadlines, cancellation, validator verdicts; oracle: the call returns within a stated simulated-time / attempt budget, no more than 64 consecutive attempts without simulated time passing, a returned success is pointer-identical to the stub's answer to the last attempt, returned region errors were delivered or are the client's fake one, writes never carry replica-read / stale-read flags, no attempt after a rejected validation, every re-send carries the retry marker",
@@ -270,7 +298,9 @@ ENGINES.append({"name": "backoffsim", "path": "sim/engines/backoffsim", "serves_
 ENGINES.append({"name": "latchsim", "path": "sim/engines/latchsim", "serves_properties": ["C17"],
                 "kind_free_text": "exhaustive and seeded interleaving exploration of the local latch scheduler against a per-key reference model (yield hooks in internal/latch)"})
 
-for _e in (("sendsim", ["C10"], "fault-script enumeration and sampling for one RegionRequestSender call on the simulated clock"),
+for _e in (("locatesim", ["C09"], "region cache over a simulated, reordering and stale PD with topology events; containment, coverage, index non-regression and convergence oracles"),
+           ("pipesim", ["C16"], "pipelined buffer with a simulator-owned flush against a three-level model; pipelined transactions over the simulated network against the reference TiKV model"),
+           ("sendsim", ["C10"], "fault-script enumeration and sampling for one RegionRequestSender call on the simulated clock"),
            ("rawsim", ["C11"], "raw KV client over the simulated network with topology changes; sorted-map model and per-key linearizability"),
            ("oraclesim", ["C13"], "pdOracle over a simulated, reordering PD; history oracle against the TSO issuance log; yield hooks for the CAS loop"),
            ("batchsim", ["C18"], "batch client over a simulated BatchCommands stream with stream breaks, cancellation, close; exactly-once / own-response oracle")):
